@@ -22,6 +22,7 @@ def run(ctx):
     pr.contiguity(rep, 'R05.e', prog, cg)
     import prost_map
     prost_map.skip_default(rep, 'R05.c', ctx)
+    pr.wrappers(rep, 'R05.w', prog, cg)
     rep.floor('R05.a', 50)
     rep.floor('R05.b', 26)
     import gen_proto
